@@ -455,13 +455,23 @@ def q3_query_matching(ck):
     for nm in ("filter", "find"):
         fb = ck.body("weechess_core::moves::MoveSet::" + nm, "Q3")
         ok = False
+        given = []
         for cn in prog.closures_of(fb.name):
             c = prog.body(cn)
             for bb, t in live_calls(c, names=(MQ + "test",)):
                 ctb = TermBuilder(prog, c)
                 a = [ctb.operand(x) for x in t["args"]]
                 ok = a[1][0] == "field" and a[1][2] == "0"
+                # ... and the query that is tested is the caller's query itself, not one derived from it (a relaxed retry selects a
+                # legal move for the text of an illegal one)
+                q = resolve_upvars(prog, c, a[0])[0]
+                while isinstance(q, tuple) and q and q[0] in ("ref", "deref", "copy") and len(q) >= 2:
+                    q = q[1]
+                given.append(q)
         ck.req(ok, "Q3.moveset_" + nm, "MoveSet::" + nm, fb.where(), "MoveSet::%s does not test the query against the move of each result" % nm)
+        ck.req(bool(given) and all(q == ("param", 2) for q in given), "Q3.given_query", "MoveSet::" + nm, fb.where(),
+               "MoveSet::%s tests %s instead of the query it was given: text that matches no legal move may still select one" % (
+                   nm, ", ".join(show(q) for q in given) or "nothing"), "the query parameter itself is tested")
 
 
 def q6_writers(ck):
